@@ -83,7 +83,7 @@ def check(modname, fnname, timeout):
     stats = collections.Counter()
     opts = AnalysisOptionSet(
         per_condition_timeout=float(timeout),
-        per_path_timeout=float(params.param('path_timeout', max(10.0, float(timeout) ** 0.5))),
+        per_path_timeout=float(params.param('path_timeout', max(40.0, 2 * float(timeout) ** 0.5))),
         report_all=True, stats=stats,
         # PEP316 docstrings only: otherwise functions of the code under test that merely *start
         # with an assert* (e.g. FindCache.add) are treated as contracts and wrapped/short-circuited
